@@ -304,6 +304,10 @@ def run_shard(ctx):
     if ctx.shard == 0:
         probe_f9(ctx)
     ridealong.drain(ctx, props=('C04',))
+    if ctx.shard == ctx.nshards - 1:
+        from xv import repo_ridealong
+        if repo_ridealong.run(ctx, ('C04',)):
+            ctx.cell('repo-tests-ridealong')
 
 
 def replay(case, ctx):
